@@ -11,6 +11,7 @@ outcome is known by construction:
 CLASSES = """class QB { public qubit bq; public qubit[2] br; public constructor() -> QB = default; }
 class QD extends QB { public qubit dq; public constructor() -> QD = default; }
 class QE extends QD { public qubit[2] er; public int tag = 3; public constructor() -> QE = default; }
+class QR { @tracked public qubit[2] tr; public constructor() -> QR = default; }
 class QT0 { @tracked public qubit tq; public constructor() -> QT0 = default; public destructor() -> void { bit b = measure tq; echo(b); } }
 class QT1 { @tracked public qubit tq; public constructor() -> QT1 = default; public destructor() -> void { x(tq); bit b = measure tq; echo(b); } }
 class QT2 { @tracked public qubit tq; public constructor() -> QT2 = default; public destructor() -> void { reset tq; x(tq); bit b = measure tq; echo(b); } }
@@ -75,6 +76,24 @@ class QObjProgram:
                 self.probe_bits.append(bit)
                 self.kinds.append("probe")
                 self.tracked["%s.tq" % c] = str(bit)
+            elif ph < 0.72 and not getattr(self, "qr_done", False):
+                # a tracked register field measured partly or wholly: '?' unless every element has an outcome
+                self.qr_done = True
+                o = nm("u")
+                f0, f1 = r.random() < 0.5, r.random() < 0.5
+                both = r.random() < 0.5
+                st = []
+                b0 = nm("rb")
+                st.append("%sbit %s = measure %s.tr[0]; echo(%s);" % ("x(%s.tr[0]); " % o if f0 else "", b0, o, b0))
+                self.probe_bits.append(1 if f0 else 0); self.kinds.append("probe")
+                if both:
+                    b1 = nm("rb")
+                    st.append("%sbit %s = measure %s.tr[1]; echo(%s);" % ("x(%s.tr[1]); " % o if f1 else "", b1, o, b1))
+                    self.probe_bits.append(1 if f1 else 0); self.kinds.append("probe")
+                elif f1:
+                    st.append("x(%s.tr[1]);" % o)
+                L.append("{ QR %s = new QR(); %s %s }" % (o, " ".join(st), r.choice(["destroy %s;" % o, ""])))
+                self.tracked["QR.tr"] = ("%d%d" % (1 if f0 else 0, 1 if f1 else 0)) if both else "?"
             elif ph < 0.8:
                 # probe: fresh local qubits, optionally tracked
                 k = r.randrange(1, 4)
